@@ -79,6 +79,30 @@ pub fn structures_cfg(uni: &Universe, k: usize, kinds: Vec<&'static str>, tag_me
     cfg
 }
 
+/// `structures_any_cfg` under another root field (e.g. `FirstA`, whose vertices have the concrete type A
+/// while the neighbours reached over `next` / `one` are Items of either type).
+pub fn structures_any_rooted_cfg(uni: &Universe, root: &str) -> CorpusCfg {
+    let sm = &uni.world.schema;
+    let mut skel = qgen::skeleton();
+    skel.root = root.into();
+    let cfg_e = GenCfg { allow: Some(vec!["E"]), e_names: Some(vec!["next", "one"]), e_contents: vec![0, 1], recurse_depths: vec![2], naming_devs: false, ..Default::default() };
+    let mut cfg = structures_any_cfg(uni);
+    cfg.seeds = qgen::enumerate(sm, &[skel], 2, &cfg_e).into_iter().skip(2).flatten().collect();
+    cfg
+}
+
+/// One-edge structures + two tag deviations (property tags and fold-count tags / filters): two tags of
+/// one vertex used by the same fold, two tag-dependent filters on one property, in either order.
+pub fn one_edge_two_tags_cfg(uni: &Universe) -> CorpusCfg {
+    let sm = &uni.world.schema;
+    let cfg_e1 = GenCfg { allow: Some(vec!["E"]), e_names: Some(vec!["next", "one"]), e_contents: vec![0, 1], recurse_depths: vec![2], naming_devs: false, ..Default::default() };
+    let mut cfg = CorpusCfg::new(2);
+    cfg.seeds = qgen::enumerate(sm, &[qgen::skeleton()], 1, &cfg_e1).into_iter().skip(1).flatten().collect();
+    cfg.gen = GenCfg { allow: Some(vec!["Pt", "Fct", "Fcf"]), wide_filters: true, naming_devs: false, ..Default::default() };
+    cfg.max_arg_maps = 1;
+    cfg
+}
+
 /// One-edge structures (and the bare skeleton) + up to two deviations restricted to variable filters
 /// and variable reuse: one variable used on two vertices / in two operators, in either order.
 pub fn var_reuse_cfg(uni: &Universe) -> CorpusCfg {
